@@ -438,6 +438,40 @@ def interface_history(g, rng, queries=()):
         cmds += [dict(q) for q in queries]
     return cmds
 
+def guarded_history(g, rng, queries=(), nrows=None):
+    """a larger linear system (two-sided bounds on variables and on combinations of two to four variables, built around
+    a random point) that is only reached through a decision on a guard: conflicts arise at a positive decision level,
+    their explanations become theory clauses, and the simplex needs many pivots (Bland's rule is reached)"""
+    tb, S = g.tb, g.num
+    vs = list(g.nums)
+    gd = g.bools[0]
+    def num(c): return tb.num(c, S)
+    point = [rng.randint(-6, 6) for _ in vs]
+    cons = []
+    for v, p_ in zip(vs, point):
+        cons.append(tb.app("<=", [num(p_ - rng.randint(0, 4)), v]))
+        cons.append(tb.app("<=", [v, num(p_ + rng.randint(0, 4))]))
+    for _ in range(nrows or rng.randint(10, 28)):
+        k = rng.randint(2, min(4, len(vs)))
+        idx = rng.sample(range(len(vs)), k)
+        coefs = [rng.choice([-3, -2, -1, 1, 2, 3]) for _ in idx]
+        val = sum(c * point[i] for c, i in zip(coefs, idx))
+        t = tb.app("+", [vs[i] if c == 1 else tb.app("*", [num(c), vs[i]]) for c, i in zip(coefs, idx)])
+        lo, hi = val - rng.randint(0, 3), val + rng.randint(0, 3)
+        if rng.random() < 0.15:
+            lo += rng.randint(0, 2)
+        cons.append(tb.app("<=", [num(lo), t]))
+        cons.append(tb.app("<=", [t, num(hi)]))
+    cmds = [{"c": "assert", "t": tb.app("or", [tb.app("not", [gd]), c_]), "nm": "", "inner": []} for c_ in cons]
+    other = vs[0]
+    cmds.append({"c": "assert", "t": tb.app("or", [gd, tb.app("<=", [num(1), other])]), "nm": "", "inner": []})
+    cmds.append({"c": "assert", "t": tb.app("or", [gd, tb.app("<=", [other, num(0)])]), "nm": "", "inner": []})
+    if rng.random() < 0.3:
+        k = rng.randrange(len(cmds))
+        cmds.insert(k, {"c": "check-sat"})
+    cmds.append({"c": "check-sat"}); cmds += [dict(q) for q in queries]
+    return cmds
+
 def diamond_history(g, rng, queries=()):
     """QF_UF: disjunctions of equality chains (the shape the preprocessor mines for transitivity facts) of every kind -
     proper diamonds, chains that share one end point only, three arms, an arm that is not a chain, either orientation -
